@@ -99,8 +99,13 @@ def apply(W, M, op):
         M.inherit[op[1]] = False
 
 
-def check(W, M, shape, flavour):
+def check(W, M, shape, flavour, variant=0):
     leafs = [SHAPES[shape][-1][0], SHAPES[shape][-2][0]]
+    if variant:
+        # the less derived class first, and instances nothing was declared on:
+        # the most derived class then meets its first query (of any kind)
+        # through a super proxy, after its base answered the same question
+        leafs.reverse()
     cls = AdapterRegistry if flavour == 'adapter' else VerifyingAdapterRegistry
     reg = cls()
     for i in IF:
@@ -108,11 +113,15 @@ def check(W, M, shape, flavour):
         reg.register([W[i], W[i]], W['P'], '', (lambda tag: (lambda o, o2: (tag, o, o2)))(i))
     for leaf in leafs:
         ob = W[leaf]()
-        directlyProvides(ob, W['I2'])    # direct interfaces must never show through super
-        implementer(W['I2'])(ob)         # nor a declaration made on the instance as a factory
+        if not variant:
+            directlyProvides(ob, W['I2'])    # direct interfaces must never show through super
+            implementer(W['I2'])(ob)         # nor a declaration made on the instance as a factory
         names = {W[n]: n for n, _ in SHAPES[shape]}
         mro = [names[c] for c in W[leaf].__mro__ if c is not object]
-        for idx, cname in enumerate(mro):
+        order = list(enumerate(mro))
+        if variant:
+            order = order[1:] + order[:1]      # the proxy for the class itself comes last
+        for idx, cname in order:
           for sup in (super, MySuper):
               s = sup(W[cname], ob)
               rest = mro[idx + 1:]
@@ -165,36 +174,38 @@ def eval_case(case):
 
 
 def _eval_case(case):
-    shape, flavour, pre, post = case
+    shape, flavour, pre, post = case[:4]
+    variant = case[4] if len(case) > 4 else 0
     W = build(shape)
     M = Model(shape)
     for op in pre:
         apply(W, M, op)
-    r = check(W, M, shape, flavour)          # first super query (fills the caches)
+    r = check(W, M, shape, flavour, variant)          # first super query (fills the caches)
     if r:
         return ('before-later-changes',) + r
     for op in post:
         apply(W, M, op)
-        r = check(W, M, shape, flavour)
+        r = check(W, M, shape, flavour, variant)
         if r:
             return ('after-later-change',) + r
     return None
 
 
 def evaluate(arg):
-    shape, flavour, pres, nops = arg
+    shape, flavour, pres, nops = arg[:4]
+    variant = arg[4] if len(arg) > 4 else 0
     O = ops(shape)
     viol = []
     n = 0
     for pre in pres:
-        for post in O:
+        for post in (O if not variant else [('nop',)]):
             n += 1
-            v = eval_case((shape, flavour, pre, (post,)))
+            v = eval_case((shape, flavour, pre, (post,), variant))
             if v:
                 viol.append(dict(sig='C19:%s:%s' % (v[0], v[1]),
-                                 case=dict(case=(shape, flavour, pre, (post,))),
+                                 case=dict(case=(shape, flavour, pre, (post,), variant)),
                                  detail=dict(shape=shape, flavour=flavour, before_first_query=pre,
-                                             after=post, violation=v)))
+                                             after=post, violation=v, variant=variant)))
             if n % 300 == 0:
                 gc.collect()
     gc.collect()
@@ -234,7 +245,15 @@ def run(ctx):
                     for v in r['viol']:
                         v['impl'] = impl
                     ctx.violations(r['viol'])
-                ctx.info['%s/%s/%s' % (impl, shape, flavour)] = dict(histories=len(pres) * len(O))
+                # the first queries in the other order, on instances without declarations
+                res = ctx.map(impl, 'evaluate',
+                              [(shape, flavour, c, len(O), 1) for c in chunks(pres, max(4, len(pres) // 64))])
+                for r in res:
+                    ctx.add(evaluations=r['n'])
+                    for v in r['viol']:
+                        v['impl'] = impl
+                    ctx.violations(r['viol'])
+                ctx.info['%s/%s/%s' % (impl, shape, flavour)] = dict(histories=len(pres) * (len(O) + 1))
                 ctx.log(impl, shape, flavour, ctx.count['evaluations'])
     ctx.count['states'] = ctx.count['evaluations']
     ctx.count['transitions'] = ctx.count['evaluations']
